@@ -58,6 +58,7 @@ type loopInfo struct {
 
 // Enc is the per-function encoder.
 type Enc struct {
+	unmarshalled bool // a decoder havocked every heap: heaps first touched later are unconstrained too (they are anyway)
 	prog *Prog
 	fn   *ssa.Function
 	fc   *FuncContract
